@@ -4,7 +4,7 @@
 cd "$(dirname "$0")/.."
 rc=0
 for d in seeded/C*/; do
-  id=$(basename "$d"); id=${id%-[23]}
+  id=$(basename "$d"); id=${id%-[2-9]}
   out=$(scripts/trymutant.sh "$d/patch.diff" "$id" 2>&1)
   if echo "$out" | grep -q "^$id exit=1"; then echo "$id DETECTED  $(echo "$out" | grep "^$id exit" | cut -c1-150)"; else echo "$id NOT-DETECTED $(echo "$out" | tail -2 | tr '\n' ' ' | cut -c1-200)"; rc=1; fi
 done
